@@ -52,6 +52,8 @@ def gen_cases(tier, seed):
                "metadata_only": rng.random() < 0.08, "dest": rng.choice(["file", "dir"])}
         faults = rng.choice([None, None, 0.1, 0.25])
         cancel = None if rng.random() < 0.7 else [rng.choice("SD"), rng.randrange(1, 12)]
+        if rng.random() < 0.1:
+            cfg.update({"src_name": "übergröße 文件.bin", "dst_name": "зона 51 ☃.dat"})  # names with non-ASCII characters and blanks
         cfg["scribble_user"] = rng.random() < 0.3  # the user overwrites the attributes of the parameter objects it was handed
         cases.append({"cfg": cfg, "faults": faults, "cancel": cancel, "seed": seed * 1_000_003 + i, "prior": rng.choice([None, None, None, "completed", "cancelled"]),
                       "pacing": rng.choice([None, None, {"src_calls": 3}, {"src_calls": 6}, {"dst_calls": 3}, {"src_calls": 2, "dst_calls": 2}, {"dst_idle": 2}, {"src_idle": 2, "dst_calls": 2}])})
